@@ -32,4 +32,9 @@ structure FreshBatch (table news : List MoveRow) (e : Int) : Prop where
   above : ∀ m ∈ table, ∀ r ∈ news, m.seq < r.seq
   increasing : news.Pairwise (fun a b => a.seq < b.seq)
 
+/-- The transactions that are not after `T` in (effective timestamp, id) order: earlier
+    timestamp, or the same timestamp and inserted before (or `T` itself). -/
+def notAfterTx (T : TxRec) (t : TxRec) : Bool :=
+  decide (t.timestamp < T.timestamp) || (decide (t.timestamp = T.timestamp) && decide (t.id ≤ T.id))
+
 end Ledger.Spec
